@@ -35,7 +35,7 @@ def tasks(tier, seed):
         ranges = [n, n - 1, n, n] if init == 'random' else [n, n]
         for draws in list(itertools.product(*[range(r_) for r_ in ranges]))[::every]:
             ts.append({'harness': 'fit/%s/it%d' % (init, max_it) + ('' if dopts == 'none' else '/' + dopts), 'lens': lens, 'init': init, 'max_it': max_it,
-                       'thr': thr, 'drop': drop, 'dopts': dopts, 'draws': list(draws), 'fixed': fixed, 'est': 20 ** (max_it + 1) * sum(lens)})
+                       'thr': thr, 'drop': drop, 'dopts': dopts, 'draws': list(draws), 'fixed': fixed, 'est': 20 ** (max_it + 1) * sum(lens) * (50 if fixed else (10 if dopts != 'none' else 1))})
     for lens in ([1, 1, 1], [2, 1, 1]) + (([2, 2, 1], [1, 1, 1, 1]) if tier == 'thorough' else ()):
         for init in ('random', 'kmeanspp'):
             add(lens, init, 0, 1e-4, None)
